@@ -817,10 +817,18 @@ spec fn generator_frame(f: Frame, task: &GeneratorTask, suffix: Seq<char>, conte
 // a spawn that cannot be honoured yields exactly one <name>.spawn.error naming it; one that can yields none
 pub struct Tx { pub ghost attempts: Seq<Scru128Id>, pub ghost last_ok: bool }
 #[verifier::external_body] pub struct GeneratorMap { _p: () }
-// handle_spawn_event as try_start_task sees it (its own contract: unit restart_ops)
+pub uninterp spec fn gmap(m: &GeneratorMap) -> Map<Seq<char>, GeneratorTask>;     // the table of running generators, by name
+impl GeneratorMap {
+    #[verifier::external_body] pub fn remove(&mut self, k: &str) -> (r: Option<GeneratorTask>) ensures gmap(final(self)) == gmap(old(self)).remove(k@) { unimplemented!() }
+    #[verifier::external_body] pub fn insert(&mut self, k: String, t: GeneratorTask) -> (r: Option<GeneratorTask>) ensures gmap(final(self)) == gmap(old(self)).insert(k@, t) { unimplemented!() }
+    #[verifier::external_body] pub fn contains_key(&self, k: &str) -> (r: bool) ensures r == gmap(self).contains_key(k@) { unimplemented!() }
+}
+// handle_spawn_event as try_start_task sees it (its own contract: unit restart_ops; a refused spawn leaves the table alone)
 #[verifier::external_body]
 fn handle_spawn_event(Tracked(tx): Tracked<&mut Tx>, topic: &str, frame: Frame, generators: &mut GeneratorMap, engine: nu::Engine, store: Store) -> (r: Result<(), Error>)
     ensures final(tx).attempts == old(tx).attempts.push(frame.id), final(tx).last_ok == (r is Ok),
+        r is Err ==> gmap(final(generators)) == gmap(old(generators)),
+        r is Ok ==> gmap(final(generators)).dom() == gmap(old(generators)).dom().insert(topic@),
 { unimplemented!() }
 spec fn spawn_error_frame(f: Frame, name: Seq<char>, spawn: Frame) -> bool {
     &&& f.topic@ == name + ".spawn.error"@ && f.context_id == spawn.context_id
@@ -841,6 +849,9 @@ spec fn spawn_error_frame(f: Frame, name: Seq<char>, spawn: Frame) -> bool {
         final(tx).last_ok ==> final(hx).appended == old(hx).appended, //# generator.try_start.no_error_frame_when_started
         !final(tx).last_ok ==> final(hx).appended.len() == old(hx).appended.len() + 1 && final(hx).appended.drop_last() == old(hx).appended
             && spawn_error_frame(final(hx).appended.last(), topic@, *frame), //# generator.try_start.one_spawn_error_naming_it
+        // a refused spawn does not touch the table of running generators (the running instance of that name stays registered)
+        !final(tx).last_ok ==> gmap(final(generators)) == gmap(old(generators)), //# generator.try_start.refusal_leaves_running_generators_alone
+        final(tx).last_ok ==> gmap(final(generators)).dom() == gmap(old(generators)).dom().insert(topic@), //# generator.try_start.refusal_leaves_running_generators_alone
 //@@ prologue
     broadcast use axiom_display_id, serde_json::axiom_str_value;
     proof {
